@@ -5,12 +5,14 @@ package main
 
 import (
 	"fmt"
+	"regexp"
 	"sort"
 	"strconv"
 	"strings"
 
 	"github.com/projectcalico/calico/felix/environment"
 	"github.com/projectcalico/calico/felix/generictables"
+	"github.com/projectcalico/calico/felix/ifacemonitor"
 	"github.com/projectcalico/calico/felix/ipsets"
 	intdataplane "github.com/projectcalico/calico/felix/dataplane/linux"
 	"github.com/projectcalico/calico/felix/nftables"
@@ -57,7 +59,21 @@ type hepInfo struct {
 	n4, n6 []string
 }
 
+// mockHandler records what the flowtableManager hands to a flowtable.
+type mockHandler struct {
+	overlay, external []string
+	calls             int
+}
+
+func (m *mockHandler) SetWorkloadInterfaces(ifces []string) { panic("unexpected SetWorkloadInterfaces") }
+func (m *mockHandler) SetOverlayDevices(d []string)         { m.overlay = append([]string(nil), d...); m.calls++ }
+func (m *mockHandler) SetExternalDevices(d []string)        { m.external = append([]string(nil), d...); m.calls++ }
+
 type state struct {
+	ft       intdataplane.VerifC41Manager
+	handlers []*mockHandler
+	targets  [][]string
+	ifUp     map[string]bool // the property's own view: last reported state of every interface
 	ipv  int
 	mgr  intdataplane.VerifC41Manager
 	mock *mockIPSets
@@ -160,6 +176,22 @@ func (s *state) exact() map[string]bool {
 		}
 	}
 	return out
+}
+
+func sortedKeys(m map[string]bool) []string {
+	var ks []string
+	for k := range m {
+		ks = append(ks, k)
+	}
+	sort.Strings(ks)
+	return ks
+}
+
+func showCsvList(l []string) string {
+	if len(l) == 0 {
+		return "-"
+	}
+	return strings.Join(l, ",")
 }
 
 func showSet(ms []string) string {
@@ -271,6 +303,81 @@ func exec(h *rt.H, s *state, op string) string {
 			return "noop"
 		}
 		return showSet(members)
+	case "ftnew":
+		s.handlers, s.targets, s.ifUp = nil, nil, map[string]bool{}
+		var hs []nftables.FlowTableHandler
+		for _, t := range w[1:] {
+			mh := &mockHandler{}
+			s.handlers = append(s.handlers, mh)
+			hs = append(hs, mh)
+			s.targets = append(s.targets, csv(t))
+		}
+		s.ft = intdataplane.VerifC41NewFlowtableManager(hs, s.targets, regexp.MustCompile("^eth"))
+		return "ok"
+	case "ftif":
+		st := ifacemonitor.StateDown
+		if w[2] != "0" {
+			st = ifacemonitor.StateUp
+		}
+		s.ft.OnUpdate(intdataplane.NewIfaceStateUpdate(w[1], st, 7))
+		s.ifUp[w[1]] = w[2] != "0"
+		return "ok"
+	case "ftcomplete":
+		before := 0
+		for _, mh := range s.handlers {
+			before += mh.calls
+		}
+		if err := s.ft.CompleteDeferredWork(); err != nil {
+			return "err"
+		}
+		after := 0
+		for _, mh := range s.handlers {
+			after += mh.calls
+		}
+		// oracle: each flowtable holds exactly its own overlay devices that are up and the up interfaces
+		// matching the external pattern (never a device that is down: nft would reject the transaction)
+		isOverlay := map[string]bool{}
+		for _, t := range s.targets {
+			for _, d := range t {
+				isOverlay[d] = true
+			}
+		}
+		var ovs []string
+		for i, mh := range s.handlers {
+			want := map[string]bool{}
+			for _, d := range s.targets[i] {
+				if s.ifUp[d] {
+					want[d] = true
+				}
+			}
+			got := map[string]bool{}
+			for _, d := range mh.overlay {
+				got[d] = true
+			}
+			wantExt := map[string]bool{}
+			for n, up := range s.ifUp {
+				if up && !isOverlay[n] && strings.HasPrefix(n, "eth") {
+					wantExt[n] = true
+				}
+			}
+			gotExt := map[string]bool{}
+			for _, d := range mh.external {
+				gotExt[d] = true
+			}
+			if fmt.Sprint(sortedKeys(want)) != fmt.Sprint(sortedKeys(got)) || fmt.Sprint(sortedKeys(wantExt)) != fmt.Sprint(sortedKeys(gotExt)) {
+				h.OracleFail("flowtable-devices", "flowtable device set differs from (own overlay devices that are up, up interfaces matching the pattern)",
+					map[string]any{"target": i, "overlay": mh.overlay, "external": mh.external, "wantOverlay": sortedKeys(want), "wantExternal": sortedKeys(wantExt)})
+			}
+			ovs = append(ovs, showCsvList(mh.overlay))
+		}
+		if after == before {
+			return "noop"
+		}
+		ext := "-"
+		if len(s.handlers) > 0 {
+			ext = showCsvList(s.handlers[0].external)
+		}
+		return "ov=" + strings.Join(ovs, ";") + " ext=" + ext
 	case "needs":
 		info := wepInfo{present: w[1] != "0", nqos: atoi(w[2]), ctl: parseCtl(w[3])}
 		if intdataplane.VerifC41WorkloadNeedsForwardHooks(mkWep(info)) {
@@ -352,7 +459,31 @@ func genCtl(h *rt.H) string {
 	}
 }
 
+var ftNames = []string{"vxlan.calico", "vxlan-v6.calico", "tunl0", "wireguard.cali", "eth0", "eth1", "eth10", "ens3", "lo", "cali123", "ethx"}
+
+func genFtCase(h *rt.H) []string {
+	tsets := [][]string{{"vxlan.calico", "tunl0"}, {"vxlan-v6.calico"}, {"vxlan.calico"}, {"-"}, {"wireguard.cali", "eth1"}}
+	nt := 1 + h.Intn(2)
+	parts := []string{"ftnew"}
+	for i := 0; i < nt; i++ {
+		parts = append(parts, strings.Join(rt.Pick(h, tsets), ","))
+	}
+	ops := []string{strings.Join(parts, " ")}
+	n := 3 + h.Intn(20)
+	for i := 0; i < n; i++ {
+		if h.Intn(4) == 0 {
+			ops = append(ops, "ftcomplete")
+		} else {
+			ops = append(ops, fmt.Sprintf("ftif %s %d", rt.Pick(h, ftNames), h.Intn(2)))
+		}
+	}
+	return append(ops, "ftcomplete")
+}
+
 func genCase(h *rt.H) []string {
+	if h.Chance(0.2) {
+		return genFtCase(h)
+	}
 	ipv := rt.Pick(h, []int{4, 4, 6})
 	ops := []string{fmt.Sprintf("new %d", ipv)}
 	nid := 1 + h.Intn(4)
@@ -391,14 +522,17 @@ func main() {
 	defer h.Close()
 	h.Rule = "case = `new <4|6>` + 3..27 ops over 1..4 workload ids and 1..4 host ids {wup (nil endpoint 5%, 0..2 DSCP policies, QoSControls nil / bandwidth-only / one limit / random), " +
 		"wrm, hup, hrm, complete, needs, rule} + final complete; addresses from small pools (shared between endpoints, with and without /len, both families); " +
-		"distinct = distinct op sequence; non-trivial = some complete programmed a non-empty set AND an endpoint lost its QoS feature or was removed"
+		"20% of cases drive the flowtableManager instead (1..2 targets with overlay devices, interface up/down events for overlay, pattern-matching and other names, completes); distinct = distinct op sequence; non-trivial = some complete programmed a non-empty set AND an endpoint lost its QoS feature or was removed"
 	run := func(ops []string, tag string) {
 		h.Case(tag)
 		s := &state{}
 		nonEmpty, lost := false, false
 		for _, op := range ops {
-			if s.mgr == nil && !strings.HasPrefix(op, "new ") {
+			if s.mgr == nil && !strings.HasPrefix(op, "new ") && !strings.HasPrefix(op, "ft") {
 				exec(h, s, "new 4")
+			}
+			if s.ft == nil && strings.HasPrefix(op, "ft") && !strings.HasPrefix(op, "ftnew") {
+				exec(h, s, "ftnew -")
 			}
 			out := exec(h, s, op)
 			h.Op(op, out)
